@@ -44,7 +44,8 @@ DEFAULT_TTL_MS = 3001
 SERVER_IDS = ["wk-0", "work-1", "worker--2"]
 
 # index -> (domain, principal); index 0 is anonymous (no header).
-IDENTITIES: list[tuple[str, str] | None] = [None, ("d1", "alice"), ("d1", "bob"), ("d2", "alice")]
+# the last one is an authenticated caller that merely *looks* anonymous (empty domain, principal "anonymous")
+IDENTITIES: list[tuple[str, str] | None] = [None, ("d1", "alice"), ("d1", "bob"), ("d2", "alice"), ("", "anonymous")]
 
 warnings.filterwarnings("ignore", message="No token_key provided")
 
